@@ -63,7 +63,7 @@ COMPACT = ('box', 'sinc2')
 STYLES = ['plain', 'quantity']
 LEVELS = {'plain': 2.5, 'quantity': 0.75,     # level is tied to the argument style (declared pairing)
           'quantity_scaled': 0.75,             # kHz / MHz / mHz-per-second Quantities (unit conversion must happen everywhere)
-          'np_f32': np.float32(2.5), 'np_i64': np.int64(3), 'py_int': 2}    # level given as other numeric types
+          'np_f32': np.float32(2.5), 'np_i64': np.int64(3), 'py_int': 2, 'np_narrow': 2.5}    # level given as other numeric types
 
 TOL_SAME = 1e-12        # helper vs general route: same expression on the same floats (rules 4/5)
 K_EPS = 16              # edge / region epsilon in ulps of the largest frequency (+ 1e-9 of the width)
@@ -157,6 +157,9 @@ def _inputs(fr, c, drift_ch=None):
     dch = c['drift'] if drift_ch is None else drift_ch
     drift = dch * (fr.df / fr.dt)          # the unit drift rate: one channel per time step
     width = c['width'] * fr.df
+    if c.get('style') == 'np_narrow':
+        # whole Hz and whole Hz/s, so that the same numbers can be handed over as 16-bit integers
+        drift, width = float(round(drift)), float(round(width))
     return f_start, drift, width
 
 
@@ -169,6 +172,8 @@ def _helper(fr, c, f_start, drift, width, smear):
     if c['style'] == 'quantity_scaled':
         return fr.add_constant_signal(f_start=(f_start * 1e-6) * u.MHz, drift_rate=(drift * 1e3) * u.mHz / u.s, level=level,
                                       width=(width * 1e-3) * u.kHz, f_profile_type=c['prof'], doppler_smearing=smear)
+    if c['style'] == 'np_narrow':
+        return fr.add_constant_signal(f_start, np.int16(drift), level, np.int16(width), f_profile_type=c['prof'], doppler_smearing=smear)
     d = 0 if drift == 0 else drift        # the pinned tests pass a Python int for "no drift"
     return fr.add_constant_signal(f_start, d, level, width, f_profile_type=c['prof'], doppler_smearing=smear)
 
@@ -479,6 +484,15 @@ def run(ctx):
         cases += [dict(c, style=st) for c in base]
     cases += [dict(c, negdf=True, asc=a) for c in base for a in (True, False)]
     cases += [dict(c, route='fil', asc=a) for c in base for a in (True, False) if c['prof'] == 'box']
+    # (sub-box) width and drift rate as 16-bit integers in a geometry where twice the width does not fit the type
+    for asc in (True, False):
+        for prof in ('box', 'gaussian'):
+            for pos in (24.0, 24.3):
+                for width in (2.5, 10.0):
+                    for drift in (1.0, -2.5, 4.0, -4.0):
+                        for smear in (False, True):
+                            cases.append(dict(geom='mid', asc=asc, tchans=2, pos=pos, drift=drift, width=width, prof=prof,
+                                              smear=smear, style='np_narrow', seed=seed))
     # whole-channel drifts (1..4 channels per step, either sign) with smearing in the decimal geometries
     for geom in ('dec1', 'dec2', 'dec3'):
         for asc in (True, False):
